@@ -63,8 +63,8 @@ type model struct {
 	owAny  bool // overflow-wrap: anywhere / break-word
 	// evidence counters of the last Layout call: words cut by overflow-wrap (all / touching an
 	// inline box), overlong words moved to the next line whole because the line had an ordinary
-	// opportunity although a prefix would have fitted the rest of the line (all / the word is in
-	// or next to an inline box or an atomic inline)
+	// opportunity although a prefix would have fitted the rest of the line (all / the word begins
+	// a text box that is not the first box of the line)
 	owSplits, owSplitsInBox, owDeferred, owDeferredBox int
 }
 
@@ -337,7 +337,12 @@ func (m *model) Layout(W float64) (lines []Line, guard string) {
 					// the line has an ordinary opportunity before it
 					if c, fits := m.splitUnit(end, q, avail-x); c > 0 && fits {
 						m.owDeferred++
-						if fc := m.nextContent(end); m.items[fc].box != 0 || m.items[end-1].box != 0 || m.items[end-1].k != 'c' {
+						// ... and the word begins another text box than the one before it
+						fc, pc := m.nextContent(end), end-1
+						for pc > pos && (m.items[pc].k == 'o' || m.items[pc].k == 'x') {
+							pc--
+						}
+						if m.items[fc].k == 'c' && (m.items[pc].k != 'c' || m.items[pc].tn != m.items[fc].tn) {
 							m.owDeferredBox++
 						}
 					}
@@ -359,17 +364,24 @@ func (m *model) Layout(W float64) (lines []Line, guard string) {
 			if end == pos && x+ns > avail+eps && m.owAny {
 				// overflow-wrap: the unit may be broken anywhere since the line has no other
 				// opportunity: keep as many characters as fit (at least one)
-				c, fits := m.splitUnit(end, q, avail)
+				c, _ := m.splitUnit(end, q, avail)
+				for _, g := range m.owGuards(end, q, avail, c > 0) {
+					guards[g] = true
+				}
 				if c > 0 {
-					for _, g := range m.owGuards(end, q, c, fits, avail) {
-						guards[g] = true
-					}
 					m.owSplits++
 					if m.items[c-1].box != 0 || m.items[m.nextContent(c)].box != 0 {
 						m.owSplitsInBox++
 					}
 					end = c
 					break
+				}
+				// finding D19: a single character wider than the line is followed by a collapsible
+				// space that ends the text of an inline box: the space is carried to the next line
+				// instead of hanging and leaves an empty fragment of the box (with its strut) or an
+				// empty line there
+				if tsp, endsNode, inBox := m.trailingSpace(end, q); m.coll && tsp > 0 && endsNode && inBox {
+					guards["D19"] = true
 				}
 			}
 			x += full
@@ -490,8 +502,8 @@ func (m *model) splitUnit(p, q int, avail float64) (cut int, fits bool) {
 }
 
 // owGuards names the known-defect configurations met when the unit items[p:q], first on its line
-// and wider than avail, is cut at c by overflow-wrap.
-func (m *model) owGuards(p, q, c int, fits bool, avail float64) (out []string) {
+// and wider than avail, is handed to overflow-wrap (cut: it has an inner split point).
+func (m *model) owGuards(p, q int, avail float64, cut bool) (out []string) {
 	// finding D14: a text that is given a non-positive width is not wrapped at all; the room left
 	// to the unit's first character is what remains after the start edges before it
 	room := avail
@@ -506,28 +518,11 @@ func (m *model) owGuards(p, q, c int, fits bool, avail float64) (out []string) {
 	// finding D16: the text up to the end edge of its inline box fits, but not with the edge's
 	// spacing: webrender splits it again against (available - spacing) although the fragment
 	// kept on this line does not hold the box's end
-	for k := p; k < q; k++ {
+	for k := p; cut && k < q; k++ {
 		if it := m.items[k]; it.k == 'x' && it.w > 0 {
 			if cw, _ := m.widths(p, k); cw <= avail+eps {
 				out = append(out, "D16")
 			}
-		}
-	}
-	// finding D19: a single character wider than the line is followed by a collapsible space that
-	// ends an inline box: the space is carried to the next line instead of hanging, and leaves an
-	// empty fragment of the box (with its strut) there
-	if !fits {
-		for k := c; k < len(m.items); k++ {
-			it := m.items[k]
-			if it.k == 'x' {
-				continue
-			}
-			if it.k == 'c' && it.sp && it.box != 0 {
-				if _, endsNode, _ := m.trailingSpace(p, k+1); endsNode {
-					out = append(out, "D19")
-				}
-			}
-			break
 		}
 	}
 	return out
